@@ -5,6 +5,7 @@ diagnostics back to named obligations.
 Spec files (/verif/specs/*.py) build a `Unit` out of the classes below.
 """
 import hashlib
+import json
 import os
 import re
 
@@ -775,6 +776,16 @@ class Fn:
             return txt
 
         if self.stub:
+            # A stubbed callee whose real body no unit verifies is an ASSUMED contract: its source text is
+            # pinned (committed baseline, never written at run time) so that a change to it is at least
+            # noticed (undecided + bounded fallback) instead of silently keeping the old assumption.
+            key = "%s::%s::%s" % (self.file, self.container or "", self.name)
+            base_h = _stub_baseline().get(key)
+            if base_h is not None:
+                norm = re.sub(r"\s+", " ", strip_comments(it.signature + it.body)).strip()
+                h = hashlib.sha256(norm.encode()).hexdigest()[:16]
+                if h != base_h:
+                    raise Drift("%s: the body of this ASSUMED (stubbed, nowhere verified) function changed (hash %s, pinned %s)" % (where, h, base_h))
             return variant(base, [], "stub")
         out.append(variant(base, [], "main"))
         for f in (self.findings if getattr(unit, "_emit_findings", True) else []):
@@ -793,6 +804,17 @@ class Fn:
         if " for " in c:
             c = c.split(" for ")[1]
         return c.strip()
+
+
+_STUB_BASELINE = None
+
+
+def _stub_baseline():
+    global _STUB_BASELINE
+    if _STUB_BASELINE is None:
+        p = os.path.join(SPECS, "stub_baseline.json")
+        _STUB_BASELINE = json.load(open(p)) if os.path.exists(p) else {}
+    return _STUB_BASELINE
 
 
 class Lemma:
